@@ -276,6 +276,10 @@ def run(ctx):
     ctx.floor('R12.5', 'state-reset paths in read_data_pdu', n_reset, 1)
 
 
+    # ---- R12.6 each demand-active is answered with *its* share id (rule R03.5 of C03, evaluated on the same facts) ----------------------
+    import c03
+    ctx.include(c03.run, ('R03.5',), 'R12.6')
+
 def callee_in(P, call, W):
     k = call.callee if call.callee in P.bodies else call.body.crate + '::' + call.callee
     return k in W
